@@ -36,9 +36,6 @@ HARNESSES += [
     _import_order('c14_import_order', 0,
                   'sort key of the external-import table (write_prototypes) on NameTable::Entry vs SlotTable::Entry and controls',
                   'classes NameTable, SlotTable, NameTable::Entry, SlotTable::Entry built with the real constructors under the global scope'),
-    _import_order('c14_import_order_sym', 1,
-                  'sort key of the external-import table on two nested classes whose unscoped names are symbolic (equal or not)',
-                  'classes Ta::E<i1> and Sb::E<i2>, letters i1, i2 symbolic in a..z (26 of the 676 pairs share the unscoped name)'),
 ]
 
 PROPERTY_INFO = {
